@@ -122,10 +122,9 @@ class _CommentClaimer(Generic[_M]):
             raise ValueError(f'{len(self._comments_to_claim)} comment(s) not found.')
 
         if comments_before:
-            first = self._repeated.token_store.get_prev(self._repeated.first_token)
-            assert first is not None
+            # The list's own placeholder (and any other in between) moves in front of the comments it now owns.
             _shift_ignored(
-                self._repeated.token_store, first, comments_before[0], backwards=True)
+                self._repeated.token_store, comments_before[0], self._repeated.first_token, backwards=True)
 
         if comments_after:
             first = self._repeated.token_store.get_next(self._repeated.last_token)
